@@ -362,6 +362,11 @@ class Contract:
 
     def facts(self, s): return []
 
+    def lemma_obligations(self, s):
+        """[(name, hypotheses, goal)]: lemmas about ghost functions (induction base/step) proved as obligations of
+        their own; `facts` may then assume the universally quantified lemma"""
+        return []
+
     def ghost_exit(self, old, new):
         """ghost fields at function exit: {field: (length, fn(index) -> term)}; the real code never
         touches ghost fields, the contract defines them as a function of the old ghost and the states"""
@@ -382,6 +387,17 @@ class Exec:
     def oblige(self, name, ps, goal, line=0, kind='safety', extra_hyps=()):
         goal = goal if isinstance(goal, z3.ExprRef) else z3.BoolVal(bool(goal))
         self.obligations.append(Obligation(name, list(ps.pc) + list(extra_hyps), goal, line, kind))
+
+    def oblige_inv(self, name, line, ps, inv):
+        if isinstance(inv, dict):
+            for k, g in inv.items(): self.oblige('%s:%s@L%d' % (name, k, line), ps, g, line, 'invariant')
+        else:
+            self.oblige('%s@L%d' % (name, line), ps, inv, line, 'invariant')
+
+    @staticmethod
+    def inv_formula(inv):
+        if isinstance(inv, dict): inv = S.And(*inv.values())
+        return zbool(inv) if isinstance(inv, z3.ExprRef) else z3.BoolVal(bool(inv))
 
     def alloc(self, ps, v):
         loc = next(_ctr); ps.heap[loc] = v
@@ -567,6 +583,14 @@ class Exec:
                 if isinstance(v, Tup): return len(v.items)
                 raise Undecided('len of unsupported value at line %d' % e.lineno)
             if name == 'set' and not args: return self.alloc(ps, SSet.empty())
+            if name == 'set' and len(args) == 1:
+                v = self.deref(ps, args[0])
+                if isinstance(v, SSeq):
+                    st = SSet.fresh('setof')
+                    ps.pc.append(S.forall_int(lambda x: st.has(x) == S._b(S.exists(0, v.len, lambda j: v[j] == x, 'so')), 'sx',
+                                              lambda x: st.has(x)))
+                    return self.alloc(ps, st)
+                raise Undecided('set() of unsupported value at line %d' % e.lineno)
             if name == 'isinstance':
                 key = ast.unparse(e)
                 if key in self.c.consts: return self.c.consts[key]
@@ -592,7 +616,8 @@ class Exec:
         args = [self.ev(a, ps, exits) for a in e.args]
         if name == 'zeros_like':
             v = self.deref(ps, args[0])
-            if isinstance(v, SSeq):
+            kw = {k.arg: ast.unparse(k.value) for k in e.keywords}
+            if isinstance(v, SSeq) and (kw.get('dtype') == 'int' or v.esort == INT):
                 return self.alloc(ps, SSeq(v.len, z3.K(INT, z3.IntVal(0))))
         if name == 'zeros' and len(args) == 1 and not isinstance(args[0], (Tup, Ref)):
             return self.alloc(ps, SSeq(zint(args[0]), z3.K(INT, z3.IntVal(0))))
@@ -944,19 +969,27 @@ class Exec:
             raise Undecided('loop %d (line %d) has no invariant in the sidecar' % (ordinal, st.lineno))
         ps.pc.append(n >= 0) if not z3.is_int_value(n) else None
         old = self.entry
+        lg_init = getattr(self.c, 'loop_ghost_init', {}).get(ordinal)
+        lg_step = getattr(self.c, 'loop_ghost_step', {}).get(ordinal)
+        if lg_init is not None:
+            with S.symbolic_mode(): self.install_ghost(ps, lg_init(StateView(ps), StateView(old)), local=True)
         with S.symbolic_mode():
-            self.oblige('loop%d-invariant-on-entry@L%d' % (ordinal, st.lineno), ps,
-                        inv(StateView(ps), z3.IntVal(0), StateView(old)), st.lineno, 'invariant')
+            self.oblige_inv('loop%d-invariant-on-entry' % ordinal, st.lineno, ps, inv(StateView(ps), z3.IntVal(0), StateView(old)))
         names, locs, fields = self.write_set(st.body, ps)
         # the iterable must not be mutated by the body
         hv = ps.fork()
         for nm in names:
             if nm in hv.env:
                 v = hv.env[nm]
-                if isinstance(v, z3.ExprRef): hv.env[nm] = fresh('h.' + nm, v.sort())
+                want = {'real': REAL, 'int': INT, 'bool': BOOL}.get(getattr(self.c, 'local_sorts', {}).get(nm))
+                if want is not None: hv.env[nm] = fresh('h.' + nm, want)
+                elif isinstance(v, z3.ExprRef): hv.env[nm] = fresh('h.' + nm, v.sort())
                 elif isinstance(v, (int, bool)): hv.env[nm] = fresh('h.' + nm, INT if not isinstance(v, bool) else BOOL)
                 else: del hv.env[nm]
         for l in locs: hv.heap[l] = fresh_like(hv.heap[l], 'h%d' % l)
+        if lg_init is not None:      # ghost locals of this loop are part of its write set
+            for nm in [n_ for n_ in hv.env if n_.startswith('g_') and isinstance(hv.env[n_], Ref)]:
+                hv.env[nm] = self.alloc(hv, fresh_like(hv.heap[hv.env[nm].loc], 'h.' + nm))
         if fields:
             so = hv.heap[hv.env['self'].loc]
             for fld in fields:
@@ -968,7 +1001,7 @@ class Exec:
         k = fresh('iter', INT)
         body = hv.fork()
         with S.symbolic_mode():
-            body.pc += [k >= 0, k < n, zbool(inv(StateView(body), k, StateView(old)))]
+            body.pc += [k >= 0, k < n, self.inv_formula(inv(StateView(body), k, StateView(old)))]
         self.bind(st.target, binder(k, body), body)
         body0 = body.fork()
         out = []
@@ -978,15 +1011,16 @@ class Exec:
                 with S.symbolic_mode():
                     if ordinal in self.c.ghost_step:
                         self.install_ghost(p, self.c.ghost_step[ordinal](StateView(body0), StateView(p), k))
-                    self.oblige('loop%d-invariant-preserved@L%d' % (ordinal, st.lineno), p,
-                                inv(StateView(p), k + 1, StateView(old)), st.lineno, 'invariant')
+                    if lg_step is not None:
+                        self.install_ghost(p, lg_step(StateView(body0), StateView(p), k), local=True)
+                    self.oblige_inv('loop%d-invariant-preserved' % ordinal, st.lineno, p, inv(StateView(p), k + 1, StateView(old)))
             elif ctrl == 'break':
                 after_break.append((p, 'next', None))
             else:
                 out.append((p, ctrl, payload))
         after = hv.fork()
         with S.symbolic_mode():
-            after.pc.append(zbool(inv(StateView(after), n, StateView(old))))
+            after.pc.append(self.inv_formula(inv(StateView(after), n, StateView(old))))
         # the loop variable keeps its last value; not modelled: drop it
         for t in ast.walk(st.target):
             if isinstance(t, ast.Name): after.env.pop(t.id, None)
@@ -1028,6 +1062,9 @@ class Exec:
     def run(self):
         c = self.c
         ps = self.prepare_entry()
+        with S.symbolic_mode():
+            for (nm, hyps, goal) in c.lemma_obligations(StateView(ps)):
+                self.obligations.append(Obligation('lemma:' + nm, list(hyps), goal, 0, 'lemma'))
         paths = self.exec_block(self.fn.body, ps)
         old = StateView(self.entry)
         nret = nraise = 0
@@ -1059,14 +1096,16 @@ class Exec:
                         self.frame(p, ln)
         return self.obligations
 
-    def install_ghost(self, p, defs):
+    def install_ghost(self, p, defs, local=False):
+        """ghost fields of self (or ghost locals when local=True) defined as (length, index -> term)"""
         if not defs: return
-        so = p.heap[p.env['self'].loc]
+        so = p.heap[p.env['self'].loc] if 'self' in p.env else None
         for fld, (n, fn) in defs.items():
             arr = fresh('ghost.' + fld, z3.ArraySort(INT, INT))
             p.pc.append(S.forall_int(lambda j: z3.Select(arr, j) == zint(fn(j)), 'g', lambda j: z3.Select(arr, j)))
-            so = so.with_field(fld, self.alloc(p, SSeq(zint(n), arr)))
-        p.heap[p.env['self'].loc] = so
+            if local: p.env[fld] = self.alloc(p, SSeq(zint(n), arr))
+            else: so = so.with_field(fld, self.alloc(p, SSeq(zint(n), arr)))
+        if not local: p.heap[p.env['self'].loc] = so
 
     def frame(self, p, ln):
         """fields outside `modifies` are unchanged (same reference, same content)"""
